@@ -117,6 +117,7 @@ Plan Gen(uint64_t seed, Tier tier)
     p.knobs["zero_floor"] = rng.chance(1, 2);      // -minrelaytxfee=0 -incrementalrelayfee=0 -blockmintxfee=0: 1-sat fee steps are possible
     p.knobs["clock_jumps"] = rng.chance(1, 4);     // AdvanceNs "faults": calls that overlap one are exempt from the timing clauses
     p.knobs["start_ns"] = (int64_t)rng.below(SEC);
+    p.knobs["spurious"] = rng.chance(1, 4);        // fault: 1/16 of condition-variable waits return without a signal
     p.knobs["seed_txs"] = rng.range(0, 5);
     p.knobs["drain_s"] = rng.pick({1, 3}) == 0 ? 4 : 35;
     // thresholds "k": with the default relay floors a step below ~110 sat cannot be produced by one transaction
@@ -124,7 +125,7 @@ Plan Gen(uint64_t seed, Tier tier)
     const int64_t* ks = p.knobs["zero_floor"] ? ks0 : ks1;
     const int64_t k = ks[rng.below(5)];
     const bool jumps = p.knobs["clock_jumps"] != 0;
-    int nops = (int)rng.range(14, tier == Tier::THOROUGH ? 70 : 36);
+    int nops = tier == Tier::THOROUGH ? (int)rng.range(24, 90) : (int)rng.range(16, 48);
     for (int i = 0; i < nops; ++i) {
         Op op;
         if (rng.chance(38, 100)) {
@@ -863,7 +864,8 @@ void Run(Ctx& ctx)
     tc.seed = (uint64_t)ctx.knob("sched_seed", 1);
     tc.switch_per_1024 = (uint32_t)std::clamp<int64_t>(ctx.knob("switch_per_1024", 128), 1, 1024);
     tc.pct_depth = (int)std::clamp<int64_t>(ctx.knob("pct_depth", 3), 1, 16);
-    tc.pct_expected_points = 30000;
+    tc.pct_expected_points = 12000; // re-drawn below for the concurrent phase (setup alone takes ~9500 scheduling points)
+    tc.spurious_wakeups = ctx.knob("spurious", 0) != 0;
     threadsim::Arm(tc);
     threadsim::AdvanceNs((uint64_t)std::clamp<int64_t>(ctx.knob("start_ns", 0), 0, (int64_t)SEC));
 
@@ -885,6 +887,8 @@ void Run(Ctx& ctx)
         if (op.kind == W_CALL) S.waiters[op.mod(0, nw)]->specs.push_back(CallSpec{kTimeouts[op.mod(1, N_TIMEOUTS)], Threshold(op), kPauses[op.mod(4, N_PAUSES)], op.arg(5) != 0});
     S.RecordState(++S.seq);
     const uint64_t t0 = threadsim::NowNs();
+    const uint64_t points0 = threadsim::GetStats().points;
+    threadsim::RedrawPct(3000);
     for (int i = 0; i < nw; ++i) S.waiters[i]->th = std::thread(WaiterMain, &S, i);
 
     for (const Op& op : ctx.plan.ops)
@@ -902,10 +906,10 @@ void Run(Ctx& ctx)
     S.stop = true;
     bool stuck = false;
     for (int round = 0; !all_finished(); ++round) {
-        if (round >= 200) { stuck = true; break; }
+        if (round >= 400) { stuck = true; break; }
         for (int i = 0; i < nw; ++i)
-            if (!S.waiters[i]->finished && S.waiters[i]->gen >= 0) drv.OpInterrupt(i, "teardown");
-        std::this_thread::sleep_for(std::chrono::milliseconds{3});
+            if (!S.waiters[i]->finished && S.waiters[i]->in_call) drv.OpInterrupt(i, "teardown");
+        std::this_thread::sleep_for(std::chrono::milliseconds{20}); // a waiter may be in its pause (<= 1 s) before noticing `stop`
     }
     for (auto& w : S.waiters) {
         if (stuck && !w->finished) w->th.detach();
@@ -918,17 +922,21 @@ void Run(Ctx& ctx)
 
     ctx.sim_ms = (t1 - t0) / MS;
     ctx.sched_points = st.points;
+    ctx.probe("sched_points_setup", points0);
+    ctx.probe("sched_points_concurrent_phase", st.points - points0);
     ctx.probe("threads_created", st.threads_created);
     ctx.probe("thread_switches", st.switches);
     if (st.timed_out_waits) ctx.probe("timed_waits_expired", st.timed_out_waits);
     if (st.clock_jumps) ctx.probe("clock_advanced_to_next_deadline", st.clock_jumps);
+    if (st.spurious) ctx.fault("spurious_wakeup", st.spurious);
     ctx.fingerprint(st.schedule_hash);
     ctx.evf("schedule hash %016llx switches %llu calls %zu tips %zu", (unsigned long long)st.schedule_hash, (unsigned long long)st.switches, S.calls.size(), S.tips.size());
     if (stuck) {
         std::string who;
         for (auto& w : S.waiters)
             if (!w->finished) who += " w" + std::to_string(w->id);
-        ctx.failf("wait-does-not-end-after-interrupt", "waiter(s)%s did not return after 200 interruptWait calls 3 ms apart", who.c_str());
+        (void)sp.release(); // parked threads still reference the node (and may hold its locks): leak it, the process ends here
+        ctx.failf("wait-does-not-end-after-interrupt", "waiter(s)%s did not return although interruptWait was called every 20 ms for 8 simulated seconds", who.c_str());
     }
     if (!S.node.notif->fatal.empty()) ctx.failf("node-fatal-error", "%s", S.node.notif->fatal[0].c_str());
     if (!S.errors.empty()) ctx.failf("harness-error", "%s (%zu in total)", S.errors[0].c_str(), S.errors.size());
@@ -959,8 +967,8 @@ Engine MakeEngine()
     e.quick_budget_s = 50;
     e.thorough_budget_s = 900;
     e.run_timeout_s = 300;
-    e.rule = "each run = one seeded schedule (uniform preemption with switch probability 1/32..1/4 per scheduling point, PCT with depth 2-6, or cooperative) of 1-3 waiter threads and one driver thread over a real regtest node "
-             "(101-103 block base chain, 64 confirmed coins, 0-5 mempool transactions) whose clocks are all the simulated clock. Waiters run 14-70 seeded operations between them: waitNext with timeout in "
+    e.rule = "each run = one seeded schedule (uniform preemption with switch probability 1/32..1/4 per scheduling point, PCT with depth 2-6 re-drawn for the concurrent phase, or cooperative; in a quarter of the runs 1/16 of all condition-variable waits wake spuriously) of 1-3 waiter threads and one driver thread over a real regtest node "
+             "(101-103 block base chain, 64 confirmed coins, 0-5 mempool transactions) whose clocks are all the simulated clock. Waiters and driver run 16-90 seeded operations between them: waitNext with timeout in "
              "{0, 1 ms, 250 ms, 1 s, 1.5 s, 2 s, 3.7 s, 30 s, 2 h, max} and fee threshold in {0, 1 sat, k, MAX_MONEY}, on their current (possibly stale) or a fresh template, after pauses of 0-1 s. The driver sleeps 0.1 ms-5 s "
              "between events: blocks on the tip confirming part of the mempool (timestamps now, now-20min+-3s, now+30s), 1-2 deep reorgs, stale siblings, new and replacement transactions whose fee puts the mempool total exactly "
              "at / one below / one above the aimed-at waiter's previous fees + threshold, interruptWait on waiting and non-waiting templates; with knob clock_jumps also forward clock jumps of 1 ms-21 min (calls overlapping a jump "
@@ -971,7 +979,7 @@ Engine MakeEngine()
              "the fee condition becoming true. non-trivial = at least 2 completed calls and more than 10 thread switches; distinct = schedule hash x outcome vector.";
     e.real_components = {"node::WaitAndCreateNewBlock / node::InterruptWait (src/node/miner.cpp)", "node::KernelNotifications (blockTip, m_tip_block_mutex, m_tip_block_cv, TipBlock)", "BlockAssembler::CreateNewBlock + TestBlockValidity",
                          "ChainstateManager::ProcessNewBlock / ActivateBestChain / ProcessTransaction, CTxMemPool (RBF, reorg re-insertion)", "libstdc++ condition_variable::wait_until on NodeClock (through interposed pthread_cond_clockwait)"};
-    e.stub_components = {"OS thread scheduler (token passing: one thread runs at a time, the seed decides switches at every pthread/futex call)", "clocks (simulated; time passes only when every thread is blocked, or by explicit jumps)",
+    e.stub_components = {"OS thread scheduler (token passing: one thread runs at a time, the seed decides switches at every pthread/futex call)", "clocks (simulated; time passes only when every thread is blocked, or by explicit jumps)", "condition variables (knob: spurious wake-ups)",
                          "BlockTemplateImpl / NodeContext wrapper (the free functions are called directly, one interrupt flag per template generation as in BlockTemplateImpl)", "peers, RPC"};
     e.assumptions = {"threads are serialised: weak-memory effects are invisible", "every mempool transaction of the workload fits into and qualifies for the next block, so 'fees of a fresh template' = fees of the mempool (checked: vTxFees sum = generator's fee table)",
                      "only regtest can be driven: the 20-minute rule is always a legal reason, its restriction to test networks is not decided", "reorganisations are natural (more work); InvalidateBlock-style tip regressions are not generated",
